@@ -499,6 +499,17 @@ def expected_headers(bare_headers, st):
     return sorted(hs)
 
 
+def fold_repeats(hs):
+    out, idx = [], {}
+    for k, v in hs:
+        if k in idx:
+            out[idx[k]][1] += ", " + v
+        else:
+            idx[k] = len(out)
+            out.append([k, v])
+    return out
+
+
 def oracle(case, obs):
     if obs and obs[0] == "driver-exception":
         return ("driver-exception-" + str(obs[1]), str(obs))
@@ -522,7 +533,10 @@ def oracle(case, obs):
             return (which + sig, "%s: body of %d bytes, bare application sent %d bytes (stack depth %d)" % (which, len(body), len(b[2]), len(st)))
         if o[1] != expected_headers(b[1], st):
             names = [h[0] for h in b[1]]
-            sig = "-repeated-headers-joined" if len(set(names)) != len(names) and st else "-headers-changed"
+            # the recorded finding is exactly: repeated lines folded into ONE line holding ALL their values joined by ", "
+            # (in order); anything else that happens to repeated headers (a value lost, reordered, ...) is a different violation
+            sig = "-repeated-headers-joined" if (len(set(names)) != len(names) and st and o[1] == expected_headers(fold_repeats(b[1]), st)) \
+                else "-headers-changed"
             return (which + sig, "%s: headers %r, expected %r (stack %r)" % (which, o[1], expected_headers(b[1], st), st))
     return None
 
